@@ -330,7 +330,7 @@ func TestC21_Codecs(t *testing.T) {
 		var mls []int
 		maxlensOf(reflect.TypeOf(c.New()).Elem(), &mls)
 		t.Run(c.Name, func(t *testing.T) {
-			hx.Check(t, "C21", 300, 6000, func(t *rapid.T) {
+			hx.Check(t, "C21", 300, 3000, func(t *rapid.T) {
 				g := &genCtx{T: t, Budget: 60}
 				v := c.New()
 				g.Fill(reflect.ValueOf(v).Elem(), 0)
